@@ -1218,6 +1218,44 @@ theorem retune_keeps_position (w : World) (x : Nat) (n : Int) (h1 : 1 ≤ n)
 example : (setHeartBeat { hbs := [⟨2, 1, 1⟩, ⟨3, 1, 1⟩, ⟨4, 1, 1⟩], cap := 32, idx := 0, todo := 3 } 4 (NV.Gen.C11.efunSat 3)).hbs =
     [⟨2, 1, 1⟩, ⟨3, 1, 1⟩, ⟨4, 3, 3⟩] := by decide
 
+/-! ### a fifth trace-level clause: nobody stays behind as command_giver -/
+
+/-- every `cg` observation after a pass of the backend loop says 0 -/
+def cgClean : List Ev → Bool
+  | [] => true
+  | .cgAfter v :: r => v.isNone && cgClean r
+  | _ :: r => cgClean r
+
+theorem accepted_cg_clean : ∀ (tr : List Ev) (j : JState), (tr.foldl judge1 j).bad = j.bad → cgClean tr = true := by
+  intro tr
+  induction tr with
+  | nil => intro _ _; rfl
+  | cons e r ih =>
+    intro j hacc
+    simp only [List.foldl_cons] at hacc
+    have hstep := bad_of_step hacc
+    have hrest := ih (judge1 j e) (by rw [hacc, hstep])
+    cases e with
+    | cgAfter v =>
+      cases v with
+      | none => simpa [cgClean] using hrest
+      | some o => exact absurd hstep (flagV_bad_ne rfl)
+    | _ => simpa [cgClean] using hrest
+
+theorem judge_ok_implies_cg_clean (tr : List Ev) (h : judgeEv tr = []) : cgClean tr = true := by
+  unfold judgeEv at h
+  have hb : (tr.foldl judge1 {}).bad = ({} : JState).bad := by simpa using h
+  exact accepted_cg_clean tr {} hb
+
+/-- **no heart_beat object stays behind as command_giver**: in every run of the model, after every pass of the backend loop
+    - round completed, truncated, abandoned by an error, served right after an abandoned one, or not run at all -
+    command_giver is 0 -/
+theorem no_command_giver_left_behind (sc : Scripts) (cmds : List Cmd) (hk : Nat → List Op := fun _ => []) :
+    cgClean (events sc cmds hk) = true :=
+  judge_ok_implies_cg_clean _ (model_satisfies_spec sc cmds hk)
+
+example : cgClean [.tickBegin, .tickEnd, .cgAfter (some 2)] = false := by decide
+
 -- non-vacuity: the predicates reject what they should
 example : beatsOnce [] [.tickBegin, .beat 2, .beatEnd 2, .beat 2] = false := by decide
 example : calledOnlyOn [] [.shb 2 2 0 0, .tickBegin, .beat 2] = false := by decide
